@@ -41,8 +41,18 @@ def yhat(ctx, N):
     P = ctx.P
     cls = P.cls(pc.PCOVR)
     site = ctx.site(P.method(cls, "fit"))
+    def assume_fitted(fitted):
+        # a caller-supplied regressor is either fitted already or not: decide the NotFittedError probe accordingly
+        def f(term, node, interp):
+            r = protocols.assume_default(term, node, interp)
+            if r is None and term.op == "raises" and term.args[0] == "NotFittedError":
+                return not fitted
+            return r
+
+        return f
+
     for space in ("feature", "sample"):
-        for reg in ("default", "precomputed", "precomputedW", "user"):
+        for reg in ("default", "precomputed", "precomputedW", "user", "user-fitted", "user-unfitted"):
             got = {}
 
             def grab(name):
@@ -55,7 +65,7 @@ def yhat(ctx, N):
 
                 return f
 
-            I = ctx.interp(order=[("K", "<=", "N"), ("K", "<=", "M")], assume=protocols.assume_default, stubs={"PCovR._fit_feature_space": grab("feature"), "PCovR._fit_sample_space": grab("sample")})
+            I = ctx.interp(order=[("K", "<=", "N"), ("K", "<=", "M")], assume=assume_fitted(reg == "user-fitted") if reg in ("user-fitted", "user-unfitted") else protocols.assume_default, stubs={"PCovR._fit_feature_space": grab("feature"), "PCovR._fit_sample_space": grab("sample")})
             st = State()
             ctor = {"space": space, "n_components": integer("K"), "mixing": scalar("alpha", 0, 1), "svd_solver": "full", "tol": scalar("tol", 0, None)}
             fit_kw = {}
@@ -63,7 +73,7 @@ def yhat(ctx, N):
                 ctor["regressor"] = "precomputed"
                 if reg.endswith("W"):
                     fit_kw["W"] = arr("Wuser", "M", "P")
-            if reg == "user":
+            if reg.startswith("user"):
                 ctor["regressor"] = extobj("user_regressor", "sklearn.linear_model.Ridge")
             o = ctx.construct(I, st, cls, **ctor)
             X, Y = arr("X", "N", "M"), arr("Y", "N", "P")
@@ -75,7 +85,10 @@ def yhat(ctx, N):
                 continue
             Xa, Ya, Yh = args[0], args[1], args[2]
             ctx.ob("R-YHAT", f"[{cfg}] first argument is X", N.nf(Xa.term) == N.nf(X.term), f"{Xa.term!r}", site, cfg, nontrivial=False)
-            ctx.ob("R-YHAT", f"[{cfg}] second argument is the raw Y", N.nf(Ya.term) == N.nf(Y.term), f"{Ya.term!r}", site, cfg)
+            ya_t = Ya.term
+            if reg == "user-fitted" and isinstance(ya_t, T("x").__class__) and ya_t.op == "reshape" and ya_t.args:
+                ya_t = ya_t.args[0]  # Y laid out like the prediction of the fitted regressor (whose width is the regressor's)
+            ctx.ob("R-YHAT", f"[{cfg}] second argument is the raw Y", N.nf(ya_t) == N.nf(Y.term), f"{Ya.term!r}", site, cfg)
             t = repr(Yh.term)
             if reg.startswith("precomputed"):
                 ok = N.nf(Yh.term) == N.nf(Y.term) and not any(o_[0] == "in" for o_ in Yh.orig)
@@ -91,8 +104,12 @@ def yhat(ctx, N):
                     okp = ok = any(nfy == N.nf(T("add", T("matmul", X.term, T("T", T("attr", e_, "coef_"))), T("attr", e_, "intercept_"))) for e_ in ests)
                 ctx.ob("R-YHAT", f"[{cfg}] Yhat = regressor_.predict(X)", bool(ok and okp), f"Yhat = {t[:200]}", site, cfg)
                 fits = [e for e in I.events[lo:] if e["kind"] == "mutate-object" and e["method"] == "fit"]
-                okf = all(e["args"] and e["args"][0].term == X.term for e in fits) and (len(fits) >= 1)
-                ctx.ob("R-YHAT", f"[{cfg}] the regressor is fitted on (X, Y)", okf, f"{len(fits)} regressor fit(s)", site, cfg)
+                if reg == "user-fitted":
+                    # the supplied regression is what the latent space is optimal for: a fitted regressor is used as it is
+                    ctx.ob("R-YHAT", f"[{cfg}] a regressor that is already fitted is not fitted again", not fits, f"{len(fits)} regressor fit(s): {[e.get('src') for e in fits][:3]}", site, cfg)
+                else:
+                    okf = all(e["args"] and e["args"][0].term == X.term for e in fits) and (len(fits) >= 1)
+                    ctx.ob("R-YHAT", f"[{cfg}] the regressor is fitted on (X, Y)", okf, f"{len(fits)} regressor fit(s)", site, cfg)
             if space == "sample":
                 W = args[3]
                 tw = repr(W.term)
